@@ -239,7 +239,11 @@ def edit_behaviours(chk, exe, tier, rng, seed):
         for h in b["hist"]:
             p = ".".join(str(i - 1) for i in h["path"]) or "-"
             a = h["arg"]
-            if h["op"] == "remove":
+            if h["op"] == "reparse":
+                toks.append("p:-")
+            elif h["op"] == "raw":
+                toks.append("g:%s" % p)
+            elif h["op"] == "remove":
                 toks.append("r:%s:%d" % (p, a["tag"]))
             elif h["op"] == "set" and not a["nc"] and not a["fw"] and rng.random() < 0.4:
                 toks.append("o:%s:%d:%s" % (p, a["tag"], _fill(a["tag"], a["len"]).hex() or "-"))
@@ -266,7 +270,26 @@ def edit_behaviours(chk, exe, tier, rng, seed):
                     return "serialization %s: libksi rc=%s %s..., TlvEdit.tla %s..." % (what, sr, hx[:40], want.hex()[:40])
             return None
         out.append((cmd, chk_fn, "edit:%s" % "-".join(h["op"] for h in b["hist"])))
-        nsteps += len(b["hist"])
+        # the same behaviour through the tree codec (KSI_TLV): nested lists, append / replace, raw value (collapses an expanded element), parse of its own output
+        ytoks = [("s" + t[1:].rsplit(":", 2)[0] + ":" + enc(dict(tag=int(t.split(":")[2]), nc=False, fw=False, len=len(bytes.fromhex(t.split(":")[3])) if t.split(":")[3] != "-" else 0), False)) if t[0] == "o" else t for t in toks]
+        def ychk(o, b=b, ytoks=ytoks):
+            got = o.split()[1:]
+            if len(got) != len(b["hist"]):
+                return "driver answered %d steps of %d: %s" % (len(got), len(b["hist"]), o[:200])
+            for k, (g, h) in enumerate(zip(got, b["hist"])):
+                rc, ser, cl = g.split(",")
+                want = layout_bytes(h["layout"])
+                what = "after %s (step %d of: %s)" % (ytoks[k][:40], k + 1, " ".join(t[:24] for t in ytoks))
+                if (int(rc) == 0) != (h["rc"] == "ok"):
+                    return "KSI_TLV edit %s returned %s where TlvEdit.tla says %s" % (ytoks[k][:40], rc, h["rc"])
+                sr, hx = ser.split(":")
+                if int(sr) != 0 or bytes.fromhex(hx) != want:
+                    return "KSI_TLV serialization %s: libksi rc=%s %s..., TlvEdit.tla %s..." % (what, sr, hx[:48], want.hex()[:48])
+                if cl != "same":
+                    return "the clone of the tree serializes differently %s (%s)" % (what, cl)
+            return None
+        out.append(("Y %d %s" % (b["root"]["tag"], " ".join(ytoks)), ychk, "tree-edit:%s" % "-".join(h["op"] for h in b["hist"])))
+        nsteps += 2 * len(b["hist"])
     return out, n_exh, len(sim), nsteps
 
 
